@@ -87,29 +87,61 @@ class FuncFault(TraceFault):
 
 
 class DirtyProfile(TraceFault):
-    """Counting pass that also samples a cheap fingerprint of process-global state at every line event and
-    reports the instants at which a component differs from its value at the start although it is back to
-    that value at the end: the windows in which an abort would leave in-flight global state behind."""
+    """Counting pass that records, for every line event, the nbdime function it belongs to, and samples a cheap
+    fingerprint of process-global state: the instants at which a component differs from its value at the start
+    although it is back to that value at the end are the windows in which an abort would leave in-flight global
+    state behind.
+
+    The line event that fires just before a component returns to its start value belongs to the statement that
+    *restores* it (e.g. the assignment inside a `finally:`).  No code can protect itself against an asynchronous
+    exception delivered inside its own clean-up statement, so those instants are never chosen as abort points."""
 
     def __init__(self, repo_root, fingerprint):
         super().__init__(repo_root, -1, RuntimeError)
         self.fp = fingerprint
         self.start = fingerprint()
         self.dirty = [[] for _ in self.start]
+        self.funcs = []          # function key of every line event, in order
 
     def _local(self, frame, event, arg):
         if event == "line":
             self.count += 1
+            self.funcs.append("%s:%s" % (os.path.basename(frame.f_code.co_filename), frame.f_code.co_name))
             now = self.fp()
             for i, v in enumerate(now):
                 if v != self.start[i]:
                     self.dirty[i].append(self.count)
         return self._local
 
+    def restoring_instants(self):
+        out = set()
+        for d in self.dirty:
+            ds = set(d)
+            out.update(c for c in d if (c + 1) not in ds)
+        return out
+
     def transient_instants(self):
         end = self.fp()
+        restoring = self.restoring_instants()
         out = []
         for i, v in enumerate(end):
             if v == self.start[i]:
-                out.extend(self.dirty[i])
+                out.extend(c for c in self.dirty[i] if c not in restoring)
         return sorted(set(out))
+
+    def avoid_restoring(self, at):
+        """Move an abort point off a restoring statement (to the line event before it)."""
+        restoring = self.restoring_instants()
+        while at in restoring and at > 1:
+            at -= 1
+        return at
+
+    def kth_line_of(self, func, k):
+        """Global index of the k-th line event inside function `func` (1-based), or None."""
+        n = 0
+        for idx, f in enumerate(self.funcs, 1):
+            if f == func:
+                n += 1
+                if n == k:
+                    return idx
+        return None
